@@ -42,6 +42,8 @@ pub struct Plan {
     signer: u32,
     bad_ephem: bool,
     follow_up: bool,
+    /// the attacker handshakes under its own id (C12: record address vs. observed source)
+    as_self: bool,
 }
 
 fn rand_bytes(ctx: &mut Ctx, n: usize) -> Vec<u8> {
@@ -163,6 +165,7 @@ async fn c01_async(ctx: &mut Ctx) {
             signer: ctx.tape.choose(4).min(2),
             bad_ephem: ctx.tape.choose(6) == 0,
             follow_up: ctx.tape.choose(2) == 1,
+            as_self: ctx.tape.choose(4) == 0,
         };
         let at = ctx.tape.choose(4000) as u64;
         w.schedule(at, Ev::Custom(X::Attack { plan }));
@@ -214,7 +217,7 @@ async fn c01_async(ctx: &mut Ctx) {
                         PacketKind::WhoAreYou { .. } => {
                             ledger.challenges.push((from, now_ms(), rec.dst, rec.dst_id, d.authenticated_data.clone()));
                             // an attack waiting for this challenge?
-                            if let Some(pos) = pending_attacks.iter().position(|(p, src)| p.victim == from && *src == rec.dst && w.nodes[p.claimed].id == rec.dst_id) {
+                            if let Some(pos) = pending_attacks.iter().position(|(p, src)| p.victim == from && *src == rec.dst && (if p.as_self { adv.id } else { w.nodes[p.claimed].id }) == rec.dst_id) {
                                 let (plan, src) = pending_attacks.remove(pos);
                                 if let Some(bytes) = craft_handshake(ctx, &w, &adv, &plan, &d.authenticated_data, src, &genuine_sigs) {
                                     ctx.ev(format!("t={} ATTACK handshake claiming n{} from {src} {plan:?}", now_ms(), plan.claimed));
@@ -257,13 +260,14 @@ async fn c01_async(ctx: &mut Ctx) {
                 }
                 X::Attack { plan } => {
                     // opening move: a random packet claiming the victim's peer
-                    let src = if plan.spoof_src { w.nodes[plan.claimed].addr } else { adv.addr };
+                    let src = if plan.spoof_src && !plan.as_self { w.nodes[plan.claimed].addr } else { adv.addr };
                     let ct = rand_bytes(ctx, 44);
                     let mut nonce = [0u8; 12];
                     nonce.copy_from_slice(&rand_bytes(ctx, 12));
-                    let bytes = toolkit::encode_packet(3, nonce, PacketKind::Message { src_id: w.nodes[plan.claimed].id }, ct, &w.nodes[plan.victim].id);
+                    let claimed_id = if plan.as_self { adv.id } else { w.nodes[plan.claimed].id };
+                    let bytes = toolkit::encode_packet(3, nonce, PacketKind::Message { src_id: claimed_id }, ct, &w.nodes[plan.victim].id);
                     ctx.fault("attacker_random_packet");
-                    ctx.ev(format!("t={} ATTACK random packet claiming n{} from {src}", now_ms(), plan.claimed));
+                    ctx.ev(format!("t={} ATTACK random packet claiming {} from {src}", now_ms(), if plan.as_self { "its own id".to_string() } else { format!("n{}", plan.claimed) }));
                     pending_attacks.push((plan.clone(), src));
                     note_delivery(&mut ledger, &w, plan.victim, src, &bytes);
                     w.deliver(plan.victim, src, bytes, Origin::Injected { tag: "attacker-random" });
@@ -359,6 +363,25 @@ fn craft_handshake(ctx: &mut Ctx, w: &HWorld<X>, adv: &Adversary, plan: &Plan, c
     let v = &w.nodes[plan.victim];
     let x = &w.nodes[plan.claimed];
     let victim_contact = NodeContact::try_from_enr(v.enr.clone(), IpMode::default()).ok()?;
+    if plan.as_self {
+        // a genuine handshake under the attacker's own id; only the advertised address varies:
+        // record 0/1: the real source, 2: none, 3: somebody else's address
+        let (ikey, _rkey, ephem) = toolkit::initiator_keys(&adv.id, &victim_contact, challenge_data)?;
+        let sig = toolkit::sign_id_nonce(&adv.key, challenge_data, &ephem, &v.id)?;
+        let record = match plan.record {
+            2 => ident::record(ident::RecSpec { ident: adv.ident, seq: 3, ip4: None, ip6: None, pad: 0 }),
+            3 => adv.record(3, x.addr),
+            _ => adv.record(3, src),
+        };
+        let kind = PacketKind::Handshake { src_id: adv.id, id_nonce_sig: sig, ephem_pubkey: ephem, enr_record: Some(record) };
+        let mut nonce = [0u8; 12];
+        nonce.copy_from_slice(&rand_bytes(ctx, 12));
+        let iv = 77u128 ^ ctx.tape.choose(1 << 20) as u128;
+        let aad = toolkit::authenticated_data(iv, nonce, kind.clone());
+        let msg = Request { id: rid(0x5E1F), body: RequestBody::Ping { enr_seq: 3 } }.encode();
+        let ct = toolkit::encrypt(&ikey, nonce, &msg, &aad)?;
+        return Some(toolkit::encode_packet(iv, nonce, kind, ct, &v.id));
+    }
     // keys as the claimed id would derive them
     let (ikey, _rkey, mut ephem) = toolkit::initiator_keys(&x.id, &victim_contact, challenge_data)?;
     let xseq = x.enr.seq();
